@@ -462,8 +462,10 @@ class HttpParser:
         )
         k = self.add_header(key, value)
         # b'content-length' in self.headers and int(self.header(b'content-length')) > 0
-        if k == b'content-length' and int(value) > 0:
-            self._content_expected = True
+        if k == b'content-length':
+            # A repeated header replaces the stored value (see add_header),
+            # keep the flag in step with the value body parsing will read.
+            self._content_expected = int(value) > 0
         # return b'transfer-encoding' in self.headers and \
         #   self.headers[b'transfer-encoding'][1].lower() == b'chunked'
         elif k == b'transfer-encoding' and value.lower() == b'chunked':
